@@ -80,7 +80,7 @@ type Case struct {
 	Threshold  int   `json:"threshold,omitempty"`
 	Sizes      []int `json:"sizes,omitempty"`
 	BtoA       bool  `json:"b_to_a,omitempty"`
-	Frag       []int `json:"read_fragments,omitempty"` // cyclic cap of each socket Read; 0 = everything available
+	Frag       []int `json:"read_fragments,omitempty"` // cyclic cap of each socket Read; 0 = everything available; -1 = this Read answers (0, nil)
 	Interleave bool  `json:"interleave,omitempty"`     // write one / read one instead of write all / read all
 	// set-up history of the two ends: SetThreshold is called before packet TAt and SetCipher before packet
 	// CAt (0 = before the first packet, len(Sizes) = after the last one, before the reverse packet); when both
@@ -795,10 +795,15 @@ func (p *pipeEnd) Read(b []byte) (int, error) {
 		n = avail
 	}
 	if len(h.frag) > 0 {
-		if f := h.frag[h.k%len(h.frag)]; f > 0 && f < n {
+		f := h.frag[h.k%len(h.frag)]
+		h.k++
+		if f < 0 {
+			// "nothing happened": io.Reader allows (0, nil); the caller must simply read again
+			return 0, nil
+		}
+		if f > 0 && f < n {
 			n = f
 		}
-		h.k++
 	}
 	copy(b[:n], h.buf[h.rpos:])
 	h.rpos += n
@@ -837,7 +842,7 @@ func (p *pipeEnd) SetWriteDeadline(time.Time) error { return nil }
 var (
 	connSizes  = []int{0, 1, 15, 16, 17, 33, 100, 5000}
 	thresholds = []int{-1, 0, 64}
-	fragsQuick = [][]int{{0}, {1}, {2}, {15}, {16}, {17}, {31}, {32}, {33}, {34}, {48}, {49}, {100}, {1, 0}, {33, 1}, {17, 40, 1}}
+	fragsQuick = [][]int{{0}, {1}, {2}, {15}, {16}, {17}, {31}, {32}, {33}, {34}, {48}, {49}, {100}, {1, 0}, {33, 1}, {17, 40, 1}, {-1, 0}, {-1, 1, -1, 17}}
 	fragsMore  = [][]int{{3}, {35}, {47}, {64}, {65}, {4096}, {16, 17}, {32, 33, 34}, {1, 1, 100}, {40, 16}}
 	packetIDs  = []int32{0x00, 0x7F, 0x80, 0x3FFF}
 )
